@@ -49,11 +49,13 @@ CHECKS = {
     "C06": C("other", "Unbounded contracts on the whole reader over a buffer of ANY length and content (z3 arrays): skip_to_sequence (least "
              "match or -1), read_word, read_coco_file_name, and -- for ANY well-formed stream described by ghost block positions (any "
              "leader / gap lengths, any number of data blocks of any length 0..255, any number of files) -- read_blocks (while-loop "
-             "invariant + variant, inner loop), read_file and list_files (fold), each callee through its contract.  The writer side is "
-             "proved unboundedly under C14.  NOT machine-checked: that the writer's proved output format (z3 sequences) is an instance of "
-             "the reader's array-form well-formedness; BOUNDED stand-in for that composition: round trips with file count <= 3, "
-             "enumerated data lengths (every length 0..765 thorough), symbolic contents / addresses / names, foreign streams.",
-             "DESIGN 4 C06, 12.6", TECHB),
+             "invariant + variant, inner loop), read_file and list_files (fold), each callee through its contract.  Writer -> reader "
+             "bridge, also unbounded: array-form contracts of append_blank / append_leader / append_data_blocks (recursion through its "
+             "own contract) and the proof that every instance of read_file's pre-condition holds for the buffer add_file produces (block "
+             "positions in closed form), for any data length >= 1 and any buffer it is appended to.  The cassette writer's format with "
+             "check sums is C14.  NOT machine-checked: the induction over the number of files in add_files / list_files (per-file step "
+             "only).  BOUNDED stand-in for it: round trips with file count <= 3, enumerated data lengths (every length 0..765 thorough), "
+             "symbolic contents / addresses / names, foreign streams.", "DESIGN 4 C06, 12.6, 12.9", TECHB),
     "C07": C("other", "Unbounded, writer side: geometry and length arithmetic for all granules / lengths; write_bytes_to_buffer, write_dir_entry, "
              "preamble / postamble read + write, write_to_fat (chains of any length), write_to_granules (any length, any chain of distinct "
              "granules, any contents: stream in chain order, by recursion through its own contract, both parameter shapes) and the add_file "
